@@ -37,6 +37,8 @@ type Gen struct {
 	T       *simkit.Tape
 	seq     int
 	Feature map[string]int // feature usage counters (reach measurement)
+	// NoRefToNamesake: no foreign key references a table called new_<another table> (see newFK).
+	NoRefToNamesake bool
 }
 
 func (g *Gen) next() int { g.seq++; return g.seq }
@@ -295,6 +297,12 @@ func (g *Gen) newFK(s *Sch, t *Tbl) (*FK, *Col) {
 		// name of the temporary table, the reference turns into a self reference and SQLite rewrites
 		// it on RENAME (another face of the recorded finding temp-table-name-collision, DESIGN 11.4).
 		if p.Name == "new_"+t.Name {
+			continue
+		}
+		// Nor, outside C01, any table called new_<another table>: when that other table is rebuilt in the
+		// same plan, SQLite points the reference at it on RENAME (recorded C01 finding
+		// reference-to-a-table-named-like-a-rebuild-temporary; the other walks are not about it).
+		if g.NoRefToNamesake && strings.HasPrefix(p.Name, "new_") && s.Table(strings.TrimPrefix(p.Name, "new_")) != nil {
 			continue
 		}
 		if len(p.PK) == 1 {
